@@ -742,7 +742,10 @@ class SymZ:
     def __ge__(self, o):
         return self._cmp(o, lambda a, b: a >= b)
 
-    __hash__ = None
+    def __hash__(self):
+        # a dict / set keyed by a symbolic int: not modelled.  Raised as Unsupported (a BaseException) so that the code under
+        # test cannot swallow it as the TypeError an unhashable object would give.
+        raise Unsupported("hash of a symbolic integer (dict / set key)")
 
     def __bool__(self):
         return cur().branch(self.t != self._c(0))
